@@ -85,6 +85,9 @@ class Module:
         # Set at the end of elaboration.
         # For most modules this will be `self`.
         self._elaborated: Optional[Module] = None
+        # The first error raised by an elaboration pass while rewriting this module, if any.
+        # Modules which have failed elaboration cannot be elaborated again.
+        self._elab_error: Optional[Exception] = None
 
         # IOs as captured before bundle-flattening.
         # Bundle-valued ports are flattened into `ports` and removed from `bundles`, but need to be kept *somewhere* afterwards.
